@@ -34,12 +34,14 @@ def main():
     place = demo_place(demo_text[:3000])
     crate = {"contracts/staking/tests": "staking", "contracts/treasury/tests": "treasury", "packages/initia-proto/tests": "initia-proto", "packages/milky_way/tests": "milky_way"}.get(place, "staking")
     tname = "verif_seed_demo"
+    feat = ["--no-default-features", "--features", "miniwasm"] if re.search(r"--features\s+miniwasm", demo_text[:4000]) else []
+    meta["demo_features"] = feat
     # --- without the patch: demo passes
     d0 = scratch()
     try:
         os.makedirs(os.path.join(d0, place), exist_ok=True)
         shutil.copy(demo, os.path.join(d0, place, tname + ".rs"))
-        rc, out = sh(["cargo", "test", "--offline", "-p", crate, "--test", tname], d0)
+        rc, out = sh(["cargo", "test", "--offline", "-p", crate, "--test", tname] + feat, d0)
         meta["steps"]["demo_without_change"] = {"cmd": "cargo test --offline -p %s --test %s" % (crate, tname), "passed": rc == 0, "tail": out[-600:] if rc else ""}
     finally:
         shutil.rmtree(d0, ignore_errors=True)
@@ -62,7 +64,7 @@ def main():
         meta["steps"]["miniwasm_compiles"] = rcm == 0
         os.makedirs(os.path.join(d1, place), exist_ok=True)
         shutil.copy(demo, os.path.join(d1, place, tname + ".rs"))
-        rc2, out2 = sh(["cargo", "test", "--offline", "-p", crate, "--test", tname], d1)
+        rc2, out2 = sh(["cargo", "test", "--offline", "-p", crate, "--test", tname] + feat, d1)
         meta["steps"]["demo_with_change"] = {"failed_as_required": rc2 != 0, "tail": out2[-500:] if rc2 else ""}
         os.remove(os.path.join(d1, place, tname + ".rs"))
         # --- the checks (static)
